@@ -18,7 +18,7 @@ import (
 
 func runC05Atomic(c *Ctx, P string) {
 	p := c.P
-	wantRebind := P == "C05" || P == "C02"
+	wantRebind := P == "C05" || P == "C02" || P == "C04"
 	wantAtomic := P == "C05" || P == "C29"
 	if wantRebind {
 		c.rule(P, "hit-rebinds", "Allocate: on a path hit the handle's table entry is re-bound to the new node", 1)
